@@ -424,7 +424,8 @@ func streamParse(o *Out, r *rand.Rand, n int, thorough bool) {
 		checkInt(fmt.Sprint(v), v, false)
 	}
 	// float literals vs strconv
-	for _, f := range []string{"1.5", "0.1", "1e3", "1E3", "2.5e-3", "1e+2", "123456789.125", "0.000001", "1.7976931348623157e308", "1e400", "1.5e", "3.", "1..2"} {
+	for _, f := range []string{"1.5", "0.1", "1e3", "1E3", "2.5e-3", "1e+2", "123456789.125", "0.000001", "1.7976931348623157e308", "1e400", "1.5e", "3.", "1..2",
+		"1.e2", "2.E3", "1.e-2", "12.e+1", "0.e0", "7.e1", "1.0e2", "1.e", "5.E-1", "00.5", "0.50", "1e0", "1E+0"} {
 		o.Sum.Evaluations++
 		o.Sum.Hist["literal:float"]++
 		stmt, err := parser.ParseSrc(f)
@@ -554,6 +555,31 @@ func streamParse(o *Out, r *rand.Rand, n int, thorough bool) {
 					o.Fail(Failure{Oracle: "statement-boundaries", Key: "body-in-brackets:" + w.name, Input: src, Detail: "the function literal parses on its own but not here: " + err.Error()})
 				} else if got := funcPart(astser.Prog(st)); got != ref {
 					o.Fail(Failure{Oracle: "statement-boundaries", Key: "body-in-brackets:" + w.name, Input: src, Detail: fmt.Sprintf("on its own the literal reads %s, here %s", ref, got)})
+				}
+			}
+		}
+	}
+	// a binary operator written directly against a prefix operator reads as the two operators it is made of (unless the two
+	// characters spell an operator of the language: --, &&, <-): `a**p` is a times the value p points to
+	for _, op := range []string{"+", "-", "*", "/", "%", "&", "|", "<", ">", "==", "!=", "<=", ">=", "<<", ">>", "&&", "||"} {
+		for _, un := range []string{"-", "!", "^", "*", "&"} {
+			last := op[len(op)-1:]
+			if m := last + un; m == "--" || m == "&&" || m == "<-" || m == "||" || m == "/*" {
+				continue
+			}
+			for _, operand := range []string{"p", "1", "(q)", "f()", "p.x", "p[0]"} {
+				tight, spaced := "x = a"+op+un+operand, "x = a "+op+" "+un+operand
+				ts, terr := parser.ParseSrc(tight)
+				ss, serr := parser.ParseSrc(spaced)
+				o.Sum.Evaluations++
+				o.Sum.Hist["operator:against-prefix"]++
+				if serr != nil {
+					continue
+				}
+				if terr != nil {
+					o.Fail(Failure{Oracle: "operator-boundary", Key: "operator-boundary:" + op + un, Input: tight, Detail: fmt.Sprintf("%q parses, %q does not: %v", spaced, tight, terr)})
+				} else if a, b := astser.ProgNoParens(ts), astser.ProgNoParens(ss); a != b {
+					o.Fail(Failure{Oracle: "operator-boundary", Key: "operator-boundary:" + op + un, Input: tight, Detail: fmt.Sprintf("%q reads as %s, %q as %s", tight, a, spaced, b)})
 				}
 			}
 		}
